@@ -1,5 +1,6 @@
 """Core of the check driver: build cache, sharded execution with crash/hang
 triage, known-findings matching, evidence writing."""
+import array
 import concurrent.futures as cf
 import hashlib
 import json
@@ -172,7 +173,9 @@ def symptom_key(stderr):
     """Derive a stable key from a sanitizer / abort report."""
     kind = "crash"
     m = re.search(r"ERROR: AddressSanitizer: ([\w-]+)", stderr)
-    if m:
+    if "Assertion" in stderr and "failed" in stderr:
+        kind = "glibcxx-assertion"
+    elif m:
         kind = "asan-" + m.group(1)
     elif re.search(r"runtime error: (.*)", stderr):
         msg = re.search(r"runtime error: (.*)", stderr).group(1)
@@ -206,9 +209,20 @@ class ShardResult:
         self.samples = []
         self.viols = []  # dict(key, detail, replay)
         self.inconclusive = None
+        self.states = set()
+        self.distinct = set()
+        self.states_overflow = False
+        self.distinct_overflow = False
+
+    def n_distinct(self):
+        # union over shards of the case hashes; falls back to the per-shard sum when a shard's set was too large to ship
+        return int(self.counters.get("distinct_cases", 0)) if self.distinct_overflow or not self.distinct else len(self.distinct)
+
+    def n_states(self):
+        return int(self.counters.get("distinct_states", 0)) if self.states_overflow or not self.states else len(self.states)
 
 
-def run_sharded(prop, binary, args, cases, seed, tier, nshards, timeout_s, replay_dir, env_extra=None, prefix=None, tag="run"):
+def run_sharded(prop, binary, args, cases, seed, tier, nshards, timeout_s, replay_dir, env_extra=None, prefix=None, tag="run", isolate_args=None):
     """Runs `binary` over case indices [0,cases) split in nshards processes.
     Crashing / hanging cases are re-run alone, reported and skipped."""
     wd = work_dir(tag)
@@ -260,6 +274,15 @@ def run_sharded(prop, binary, args, cases, seed, tier, nshards, timeout_s, repla
                         merged["counters"][k] = merged["counters"].get(k, 0) + v
                 merged["samples"] += d["samples"]
                 merged["violations"] += d["violations"]
+                for suf in ("states", "distinct"):
+                    fp = out + "." + suf
+                    if os.path.exists(fp) and os.path.getsize(fp) <= 24_000_000:
+                        a = array.array("Q")
+                        with open(fp, "rb") as fh:
+                            a.frombytes(fh.read())
+                        merged.setdefault(suf, set()).update(a)
+                    elif os.path.exists(fp):
+                        merged[suf + "_overflow"] = True
                 return merged
             # crash or hang: which case?
             idx = None
@@ -274,12 +297,28 @@ def run_sharded(prop, binary, args, cases, seed, tier, nshards, timeout_s, repla
                 merged["inconclusive"] = "shard %d died (rc=%s) before reporting a case: %s" % (shard, rc, err[-1500:])
                 return merged
             # confirm alone
-            only_cmd = base_cmd(shard, out + ".only", prog + ".only", ["--only", str(idx)])
+            only_cmd = base_cmd(shard, out + ".only", prog + ".only", ["--only", str(idx)] + (isolate_args or []))
+            if os.path.exists(out + ".only"):
+                os.remove(out + ".only")
             try:
                 p2 = subprocess.run(only_cmd, stdout=subprocess.DEVNULL, stderr=subprocess.PIPE, env=env, cwd=wd, timeout=120, text=True, errors="replace")
                 rc2, err2, hung2 = p2.returncode, p2.stderr, False
             except subprocess.TimeoutExpired as te:
                 rc2, err2, hung2 = None, (te.stderr or b"").decode(errors="replace") if isinstance(te.stderr, bytes) else (te.stderr or ""), True
+            if isolate_args and not hung2 and rc2 in (0, 1) and os.path.exists(out + ".only"):
+                # the engine enumerated the case cell by cell in forked children: take its own report
+                with open(out + ".only") as fh:
+                    d2 = json.load(fh)
+                if d2["violations"] or not hung:
+                    merged["violations"] += d2["violations"]
+                    if not d2["violations"]:
+                        merged["inconclusive"] = "shard %d crashed at case %d but the isolated re-run found nothing: %s" % (shard, idx, err[-800:])
+                        return merged
+                    crashes += 1
+                    if crashes >= 40:
+                        return merged
+                    resume = idx + 1
+                    continue
             if hung and not hung2:
                 merged["inconclusive"] = "shard %d hit the %ds watchdog at case %d but the case ends when run alone" % (shard, timeout_s, idx)
                 return merged
@@ -311,6 +350,11 @@ def run_sharded(prop, binary, args, cases, seed, tier, nshards, timeout_s, repla
                 res.counters[k] = max(res.counters.get(k, 0), v)
             else:
                 res.counters[k] = res.counters.get(k, 0) + v
+        for suf in ("states", "distinct"):
+            if suf in m:
+                getattr(res, suf).update(m[suf])
+            if m.get(suf + "_overflow"):
+                setattr(res, suf + "_overflow", True)
         res.samples += m["samples"]
         res.viols += m["violations"]
         if m["inconclusive"] and not res.inconclusive:
